@@ -307,6 +307,45 @@ impl Store {
 }
 
 
+/// Verification hook: read-only dump of the dependency store, one line per node in topological rank order.
+#[cfg(feature = "gohla_pie_verif")]
+impl Store {
+  pub fn verif_dump(&self) -> Vec<String> {
+    let mut nodes: Vec<(u32, Node)> = self.graph.iter_unsorted().collect();
+    nodes.sort();
+    let name = |n: &Node| match self.graph.get_node_data(n) {
+      Some(NodeData::Task { task, .. }) => format!("{:?}", task),
+      Some(NodeData::Resource(resource)) => format!("{:?}", resource),
+      None => "?".to_string(),
+    };
+    let mut lines = Vec::new();
+    for (rank, node) in nodes {
+      let outgoing: Vec<String> = self.graph.get_outgoing_edges(node).map(|(_, d)| match d {
+        Dependency::ReservedRequire => "Reserved".to_string(),
+        Dependency::Require(d) => format!("Require({:?},{:?},{:?})", d.task(), d.checker(), d.stamp()),
+        Dependency::Read(d) => format!("Read({:?},{:?},{:?})", d.resource(), d.checker(), d.stamp()),
+        Dependency::Write(d) => format!("Write({:?},{:?},{:?})", d.resource(), d.checker(), d.stamp()),
+      }).collect();
+      let incoming: Vec<String> = self.graph.get_incoming_edges(node).map(|(n, d)| match d {
+        Dependency::ReservedRequire => format!("Reserved({})", name(n)),
+        Dependency::Require(_) => format!("Require({})", name(n)),
+        Dependency::Read(_) => format!("Read({})", name(n)),
+        Dependency::Write(_) => format!("Write({})", name(n)),
+      }).collect();
+      let line = match self.graph.get_node_data(node) {
+        Some(NodeData::Task { task, output }) =>
+          format!("rank={} task={:?} out={:?} deps=[{}] in=[{}]", rank, task, output, outgoing.join(";"), incoming.join(";")),
+        Some(NodeData::Resource(resource)) =>
+          format!("rank={} res={:?} in=[{}]", rank, resource, incoming.join(";")),
+        None => format!("rank={} ?", rank),
+      };
+      lines.push(line);
+    }
+    lines
+  }
+}
+
+
 #[cfg(test)]
 mod test {
   use std::path::PathBuf;
